@@ -84,6 +84,7 @@ impl Mat {
     #[verifier::external_body] pub fn at(&self, i: usize, j: usize) -> (r: &ER) ensures r.v() == mat_at(self.m@, i as int, j as int) { unimplemented!() }
 }
 pub uninterp spec fn mat_at(m: int, i: int, j: int) -> int;
+impl Mat { pub open spec fn at_spec(&self, i: usize, j: usize) -> int { mat_at(self.m@, i as int, j as int) } }
 
 //@item struct/SnfCalc subst=Mat<R>:Mat
 
@@ -280,6 +281,52 @@ impl SnfCalc {
     //@+ after-let d
     //@| if d.v() == r0() { lemma_zero_dvd(y.v()); }
     //@| lemma_unimodular(x.v(), y.v(), d.v(), s.v(), t.v());
+}
+
+impl Mat {
+    #[verifier::external_body] pub fn shape(&self) -> (r: (usize, usize)) { unimplemented!() }
+}
+impl SnfCalc {
+    /// pivot search and non-zero counts: iterator adaptors over nalgebra views (not under contract; any result is allowed)
+    #[verifier::external_body] pub fn select_pivot(&self, below_i: usize, j: usize) -> (r: Option<usize>) { unimplemented!() }
+    #[verifier::external_body] pub fn row_nz(&self, i: usize) -> (r: usize) { unimplemented!() }
+    #[verifier::external_body] pub fn col_nz(&self, j: usize) -> (r: usize) { unimplemented!() }
+
+//@if A
+    // (variant A only: whether the pivot assertion / the endless-loop guard can fire depends on entry-level
+    //  semantics that are not modelled, so 'valid input is not rejected' is not claimed for these three)
+    /// termination is NOT proved (the loop runs until the pivot row and column are clean)
+    #[verifier::exec_allows_no_decreases_clause]
+    pub fn eliminate_at(&mut self, i: usize, j: usize)
+        ensures same_flags(*old(self), *final(self)), forall|a0: int| pq_ok(*old(self), a0) ==> pq_ok(*final(self), a0),
+    //@body impl/SnfCalc/eliminate_at ring=1 index2=1 boolor=1 machine=i,j loops=1
+    //@+ sig
+    //@| fn eliminate_at(&mut self, i: usize, j: usize)
+    //@+ loop 0 header
+    //@| while self.row_nz(i) > 1 || self.col_nz(j) > 1
+    //@+ loop 0
+    //@| invariant same_flags(*old(self), *self), forall|a0: int| pq_ok(*old(self), a0) ==> pq_ok(*self, a0),
+
+    #[verifier::exec_allows_no_decreases_clause]
+    pub fn eliminate_step(&mut self, i: usize, j: usize) -> (r: bool)
+        ensures same_flags(*old(self), *final(self)), forall|a0: int| pq_ok(*old(self), a0) ==> pq_ok(*final(self), a0),
+    //@body impl/SnfCalc/eliminate_step ring=1 index2=1 machine=i,j,i_p
+    //@+ sig
+    //@| fn eliminate_step(&mut self, i: usize, j: usize) -> bool
+    //@+ after-let u
+    //@| ax_nunit_unit(self.target.at_spec(i, i));
+
+    #[verifier::exec_allows_no_decreases_clause]
+    pub fn eliminate_all(&mut self)
+        ensures same_flags(*old(self), *final(self)), forall|a0: int| pq_ok(*old(self), a0) ==> pq_ok(*final(self), a0),
+    //@body impl/SnfCalc/eliminate_all for_range=1 loops=1
+    //@+ sig
+    //@| fn eliminate_all(&mut self)
+    //@+ loop 0 header
+    //@| for j in 0..n
+    //@+ loop 0
+    //@| invariant i <= __it0, same_flags(*old(self), *self), forall|a0: int| pq_ok(*old(self), a0) ==> pq_ok(*self, a0),
+//@endif
 }
 } // verus!
 fn main() {}
